@@ -12,6 +12,7 @@
 #include <boost/serialization/collection_size_type.hpp>
 #include <boost/serialization/item_version_type.hpp>
 #include <type_traits>
+#include <map>
 #include <cstdio>
 namespace c18 {
 class tok_oarchive : public boost::archive::text_oarchive_impl<tok_oarchive> {
@@ -23,8 +24,25 @@ public:
 	void save(boost::archive::class_id_type const&){}
 	void save(boost::archive::class_id_reference_type const&){}
 	void save(boost::archive::class_id_optional_type const&){}
-	void save(boost::archive::object_id_type const&){}
-	void save(boost::archive::object_reference_type const&){}
+	// objects saved THROUGH A POINTER (shared_ptr batches): first occurrence `p<k>` (k = ordinal among the pointer
+	// objects of this archive), later occurrences of the same address `r<k>`; a by-value tracked object that boost
+	// elides because its address was seen before shows up as `R` (never for an intact Data: every batch is
+	// written once, through its pointer)
+	bool pending_ptr = false, emit_ptr = true;
+	std::map<unsigned, unsigned> ordinal;
+	void save_pointer(const void* t, const boost::archive::detail::basic_pointer_oserializer* b){
+		pending_ptr = true; base::save_pointer(t, b); pending_ptr = false;
+	}
+	void save(boost::archive::object_id_type const& t){
+		if(!pending_ptr) return;
+		pending_ptr = false;
+		unsigned k = unsigned(ordinal.size()); ordinal[unsigned(t)] = k;
+		if(emit_ptr) os << "p" << k << ' ';
+	}
+	void save(boost::archive::object_reference_type const& t){
+		if(pending_ptr){ pending_ptr = false; os << "r" << ordinal[unsigned(boost::archive::object_id_type(t))] << ' '; }
+		else os << "R ";
+	}
 	void save(boost::archive::tracking_type const&){}
 	void save(boost::archive::class_name_type const&){}
 	void save(boost::serialization::item_version_type const&){}
